@@ -88,12 +88,16 @@ Section MidCap.
   Hypothesis Hidx : 0 <= dictIdx /\ dictIdx <= prefixIdx /\ prefixIdx <= s0 /\ s0 + srcSize < M32.
   Hypothesis Hsz : 0 <= srcSize.
   Hypothesis Hmo : 0 <= maxOut.
+  Variable lo : Z.
+  Hypothesis Hlo : 0 <= lo <= dictIdx.
 
   Notation iend := (mi_iend s0 srcSize).
   Notation mflimit := (mi_mflimit s0 srcSize).
   Notation matchlimit := (mi_matchlimit s0 srcSize).
-  Notation MInv := (MInv vrd dictIdx s0 srcSize).
-  Notation found_ok := (found_ok vrd dictIdx s0 srcSize).
+  Notation MInv := (MInv vrd s0 srcSize lo).
+  Notation found_ok := (found_ok vrd s0 srcSize lo).
+  Variable dsrch : Z -> option found.
+  Hypothesis Hdsrch : forall ip f, s0 <= ip <= mflimit -> dsrch ip = Some f -> found_ok ip f.
 
   Definition hwlim : Z := match lim with NotLimited => srcSize + srcSize / 255 + 16 | _ => maxOut end.
   (* the end of the output buffer as the sequence encoder sees it *)
@@ -219,7 +223,7 @@ Section MidCap.
     pose proof (limits s0 srcSize) as (L1 & L2 & L3).
     unfold encode_step.
     assert (Hfa : m_anchor s <= f_ip f) by lia.
-    pose proof (catchback_match vrd prefixIdx dictIdx s0 srcSize Hidx (Z.to_nat (f_ip f - m_anchor s)) (f_ip f) (f_ml f) (m_anchor s) (f_dist f)
+    pose proof (catchback_match vrd prefixIdx dictIdx s0 srcSize Hidx lo Hlo (Z.to_nat (f_ip f - m_anchor s)) (f_ip f) (f_ml f) (m_anchor s) (f_dist f)
                   ltac:(lia) Hfa ltac:(unfold M32 in *; lia) Hfm) as Hcb. cbv zeta in Hcb.
     destruct (catchback vrd prefixIdx (Z.to_nat (f_ip f - m_anchor s)) (f_ip f) (f_ml f) (m_anchor s) (f_dist f)) as [ip ml].
     cbn [fst snd] in Hcb. destruct Hcb as (C1 & C2 & C3). cbv zeta.
@@ -264,7 +268,7 @@ Section MidCap.
     intros (Ha & Hae & _) Hip (Hfi & Hfm & Hfl). unfold encode_step.
     assert (Hfa : m_anchor s <= f_ip f) by lia.
     pose proof (limits s0 srcSize) as (L1 & L2 & L3).
-    pose proof (catchback_match vrd prefixIdx dictIdx s0 srcSize Hidx (Z.to_nat (f_ip f - m_anchor s)) (f_ip f) (f_ml f) (m_anchor s) (f_dist f)
+    pose proof (catchback_match vrd prefixIdx dictIdx s0 srcSize Hidx lo Hlo (Z.to_nat (f_ip f - m_anchor s)) (f_ip f) (f_ml f) (m_anchor s) (f_dist f)
                   ltac:(lia) Hfa ltac:(unfold M32 in *; lia) Hfm) as Hcb. cbv zeta in Hcb.
     destruct (catchback vrd prefixIdx (Z.to_nat (f_ip f - m_anchor s)) (f_ip f) (f_ml f) (m_anchor s) (f_dist f)) as [ip ml].
     cbn [fst snd] in Hcb. destruct Hcb as (C1 & C2 & C3). cbv zeta.
@@ -275,21 +279,29 @@ Section MidCap.
 
   Lemma main_loop_cap : forall fuel s, MInv s -> CInv s ->
     Z.max 1 (mflimit + 2 - m_ip s) <= Z.of_nat fuel ->
-    RCap (main_loop vrd lim prefixIdx dictIdx s0 srcSize fuel s oend_seq).
+    RCap (main_loop vrd lim prefixIdx dictIdx s0 srcSize dsrch fuel s oend_seq).
   Proof.
     induction fuel as [|fuel IH]; intros s HI HC Hf; [lia|]. cbn [main_loop]. cbv zeta.
     pose proof (limits s0 srcSize) as (L1 & L2 & L3).
     pose proof HI as (Ha & Hae & Ho & Hop & T4 & T8 & T4e & T8e).
     destruct (m_ip s <=? mflimit) eqn:Eip.
-    - pose proof (search_sound vrd prefixIdx dictIdx s0 srcSize Hidx (m_ip s) (m_h4 s) (m_h8 s) ltac:(lia) T4 T8) as Hs.
+    - pose proof (search_sound vrd prefixIdx dictIdx s0 srcSize Hidx lo Hlo (m_ip s) (m_h4 s) (m_h8 s) ltac:(lia) T4 T8) as Hs.
       destruct (search vrd prefixIdx dictIdx s0 srcSize (m_ip s) (m_h4 s) (m_h8 s)) as [[[fd|] h4'] h8'].
       + destruct Hs as (Hfd & A4 & A8).
-        pose proof (encode_step_sound vrd lim prefixIdx dictIdx s0 srcSize Hb Hidx s fd h4' h8' oend_seq HI ltac:(lia) Hfd A4 A8) as He1.
+        pose proof (encode_step_sound vrd lim prefixIdx dictIdx s0 srcSize Hb Hidx lo Hlo dsrch Hdsrch s fd h4' h8' oend_seq HI ltac:(lia) Hfd A4 A8) as He1.
         pose proof (encode_step_cap s fd h4' h8' HI HC ltac:(lia) Hfd) as He2.
         pose proof (encode_step_progress s fd h4' h8' oend_seq HI ltac:(lia) Hfd) as He3.
         destruct (encode_step vrd lim prefixIdx s0 srcSize s (u32 (m_ip s)) fd h4' h8' oend_seq) as [s'|r]; [|exact He2].
         apply IH; [exact He1 | exact He2 | lia].
       + destruct Hs as (A4 & A8).
+        destruct (dsrch (m_ip s)) as [fd|] eqn:Ed.
+        { pose proof (Hdsrch (m_ip s) fd ltac:(lia) Ed) as Hfd.
+          pose proof (encode_step_sound vrd lim prefixIdx dictIdx s0 srcSize Hb Hidx lo Hlo dsrch Hdsrch s fd h4' h8' oend_seq HI ltac:(lia) Hfd A4
+                        ltac:(eapply tab_lt_mono; eauto; lia)) as He1.
+          pose proof (encode_step_cap s fd h4' h8' HI HC ltac:(lia) Hfd) as He2.
+          pose proof (encode_step_progress s fd h4' h8' oend_seq HI ltac:(lia) Hfd) as He3.
+          destruct (encode_step vrd lim prefixIdx s0 srcSize s (u32 (m_ip s)) fd h4' h8' oend_seq) as [s'|r]; [|exact He2].
+          apply IH; [exact He1 | exact He2 | lia]. }
         assert (Hq : 0 <= (m_ip s - m_anchor s) / 512) by (Z.div_mod_to_equations; lia).
         apply IH.
         * unfold HcMidSound.MInv. cbn [m_ip m_anchor m_op m_rout m_h4 m_h8].
@@ -304,7 +316,7 @@ Section MidCap.
 
   Theorem mid_compress_cap h4 h8 :
     srcSize <= LZ4_MAX_INPUT_SIZE -> tab_lt h4 s0 -> tab_lt h8 s0 ->
-    RCap (mid_compress vrd lim prefixIdx dictIdx s0 srcSize maxOut h4 h8).
+    RCap (mid_compress vrd lim prefixIdx dictIdx s0 srcSize maxOut dsrch h4 h8).
   Proof.
     intros Hmax T4 T8. pose proof (limits s0 srcSize) as (L1 & L2 & L3). unfold mid_compress.
     replace ((srcSize <? 0) || (maxOut <? 0) || (srcSize >? LZ4_MAX_INPUT_SIZE)) with false by lia. cbv zeta.
